@@ -10,6 +10,7 @@ import (
 
 type SpecEnv struct {
 	x    *Exec
+	spare map[string]SV // locals no clause refers to by name: candidates for a renamed local
 	vars map[string]SV
 	H    string // current heap term
 	H0   string // heap for old(...)
@@ -23,6 +24,13 @@ func (e *SpecEnv) with(name string, v SV) *SpecEnv {
 		n.vars[k] = vv
 	}
 	n.vars[name] = v
+	if _, isParam := e.x.cur.params[name]; !isParam && e.x.cur.refNames != nil && !e.x.cur.refNames[name] && name != "idx" && name != "rangeindex" && name != "ord" && name != "ordn" && name != "ordpos" && name != "result" && !strings.HasPrefix(name, "result") {
+		n.spare = map[string]SV{}
+		for k, vv := range e.spare {
+			n.spare[k] = vv
+		}
+		n.spare[name] = v
+	}
 	return &n
 }
 
@@ -123,8 +131,19 @@ func (e *SpecEnv) eval(x Expr) SV {
 		case "H0":
 			return term(e.H0, SUnk)
 		}
-		// nullary SMT constant from the prelude (TList, KLIST, VNil, WNil ...)
-		return term(n.Name, SUnk)
+		if preSymsKnown(n.Name) {
+			// nullary SMT constant from the prelude (TList, KLIST, VNil, WNil ...)
+			return term(n.Name, SUnk)
+		}
+		// a local the contract names is gone (renamed?): bind it to the only local nothing else refers to
+		if len(e.spare) == 1 {
+			for k, v := range e.spare {
+				e.x.assumptions[fmt.Sprintf("%s: contract name %q bound to the renamed local %q (the only unreferenced loop-carried / unique local)", e.x.cur.ct.Func, n.Name, k)] = true
+				return v
+			}
+		}
+		e.fail("unknown identifier %q", n.Name)
+		return SV{}
 	case *EOld:
 		o := *e
 		o.H = e.H0
@@ -419,3 +438,10 @@ func (e *SpecEnv) call(n *ECall) SV {
 }
 
 var _ = types.Typ
+
+func preSymsKnown(name string) bool {
+	if preSyms == nil {
+		return true
+	}
+	return preSyms[name]
+}
